@@ -128,15 +128,15 @@ PROPS = {
             "rule": "contract on photon_weave.extra.expression_interpreter.interpreter (every nested evaluation) comparing the value with an independent evaluator run on a pre-call deep copy, byte-comparing caller-owned array leaves and context results before/after, checking the dimension list handed to the context, and malformed head symbols; random trees over all seven commands with numeric/numpy/jax/context-name leaves; a case = one judged evaluation; cell = (head command, tree depth | check kind)"},
     "C19": {"driver": _lazy("pwv.drivers_pure", "c19_driver"), "profile": "contract-overlap",
             "rule": "contract on Envelope.overlap_integral against the closed-form Gaussian overlap, plus exchange symmetry; pulse widths log-uniform over 1e-15..10 s including the 42.45 fs default, centre offsets and delays 0..8 widths, both argument orders; a case = one judged call; cell = (decade of the narrower width, equal/unequal widths, delay in widths)"},
-    "C01": {"profile": "ops", "oracles": [lambda r: O.judge_apply(r, "C01")]},
-    "C02": {"profile": "structure", "oracles": [O.judge_c02], "opts": {"multi_ce": 0.25}},
-    "C03": {"profile": "composite", "oracles": [lambda r: O.judge_apply(r, "C03")]},
-    "C04": {"profile": "measure", "oracles": [lambda r: O.judge_measure(r, "C04")], "free_mix": 0.25},
-    "C05": {"profile": "measure", "oracles": [lambda r: O.judge_measure(r, "C05"), O.judge_dead_probe],
+    "C01": {"profile": "ops", "rule": "seeded online-generated programs (profile ops: worlds of 1-3 envelopes, 0-2 custom states, lone subsystems; 4-12 steps; preparation by composite gates, channels, measurements, combines, reorders) - every single-subsystem apply_operation is one case, judged against (O x I) rho (O x I)^dagger[/trace] on the joint state of all live subsystems; cell = (operation family.type, entry point, storage of the target, level, state class, contraction flag); trivial iff state class is a fresh product of basis labels",  "oracles": [lambda r: O.judge_apply(r, "C01")]},
+    "C02": {"profile": "structure", "rule": "every combine / reorder / expand / contract / CompositeEnvelope(...) / trace_out call of generated programs (profile structure, incl. scripted multi-composite prefixes) is one case: joint state before = after; trace_out return value = partial trace in the requested order; cell = (call or trace_out-value, entry point, storage, level, state class, #arguments); trivial iff state class is a fresh product of basis labels",  "oracles": [O.judge_c02], "opts": {"multi_ce": 0.25}},
+    "C03": {"profile": "composite", "rule": "every multi-operand apply_operation (CX, CZ, SWAP, CSWAP, beam splitter, expression over 2-3 operands of mixed kinds, operation objects reused on other operands) of generated programs is one case, judged on the joint state with the k-th tensor factor bound to the k-th operand; cell = (operation, entry point, storages, levels, state class, contraction, operands given out of canonical order?); trivial iff state class is a fresh product of basis labels",  "oracles": [lambda r: O.judge_apply(r, "C03")]},
+    "C04": {"profile": "measure", "rule": "every measure call of generated programs is one case: each intercepted jax.random.choice draw (p, outcome set, key) is matched with a member of the specified measured set whose conditional reduced diagonal equals p; cell = (measure, entry point, storages, levels, state class, flags, kinds of the measured set); trivial iff state class is a fresh product of basis labels",  "oracles": [lambda r: O.judge_measure(r, "C04")], "free_mix": 0.25},
+    "C05": {"profile": "measure", "oracles_extra": "continuation", "rule": "every measure call (branch chosen uniformly over the support by the steered sampler, or by the real sampler) is one case: outcome keys, fates of measured subsystems, collapsed joint state of the survivors; plus one dead probe per freshly destroyed subsystem; cell = (measure|dead-probe, entry point, storages, levels, state class, flags, kinds); trivial iff state class is a fresh product of basis labels",  "oracles": [lambda r: O.judge_measure(r, "C05"), O.judge_dead_probe],
             "post_step": _dead_probe_hook, "free_mix": 0.15},
-    "C06": {"profile": "kraus", "oracles": [O.judge_c06]},
-    "C07": {"profile": "invariants", "oracles": [O.judge_c07], "opts": {"multi_ce": 0.15, "lifecycle": 0.15}},
-    "C09": {"profile": "povm", "oracles": [O.judge_c09], "free_mix": 0.2},
-    "C13": {"profile": "graph", "oracles": [O.judge_c13], "opts": {"env_max": 4, "multi_ce": 0.5, "lifecycle": 0.2}},
-    "C20": {"profile": "blocks", "oracles": [O.judge_c20], "opts": {"multi_ce": 0.25, "lifecycle": 0.25}},
+    "C06": {"profile": "kraus", "rule": "every apply_kraus call of generated programs (identity, unitary, depolarising and Haar-dilation channels with 2-4 operators, 1-3 targets in any order) is one case judged against sum_i K_i rho K_i^dagger on the joint state, unit trace and the level rule; cell = (kraus, entry point, storages, levels, state class, #targets, #operators); trivial iff state class is a fresh product of basis labels",  "oracles": [O.judge_c06]},
+    "C07": {"profile": "invariants", "rule": "after every successful call of generated programs (all step kinds, contraction toggled) every live storage block is checked: label range, unit norm, hermiticity, PSD, unit trace, shape = product of member dimensions, tag = representation, members report the block level; case = one call; cell = (call, operation, entry point, storage, level, contraction flag); trivial iff the addressed block is at label level",  "oracles": [O.judge_c07], "opts": {"multi_ce": 0.15, "lifecycle": 0.15}},
+    "C09": {"profile": "povm", "rule": "every measure_POVM call (computational, rotated projective and non-projective complete sets, 1-2 targets, destructive or not) is one case: draw distribution, returned outcome, fates, post state of the survivors; cell = (povm, entry point, storages, levels, state class, flags, kinds, operator-set kind); trivial iff state class is a fresh product of basis labels",  "oracles": [O.judge_c09], "free_mix": 0.2},
+    "C13": {"profile": "graph", "rule": "after every call (successful or not) of generated programs (profile graph: constructions, merges incl. handles sharing a container and chains, scripted multi-composite and envelope life-cycle prefixes, combines, reorders, measurements) the bookkeeping predicates are evaluated on the whole object graph, unrelated composites are bit-compared, and after bookkeeping calls every subsystem reduced state is re-read through its indices; case = one call; cell = (call, entry point, storage, raised?, #composite handles); trivial iff no composite envelope exists yet",  "oracles": [O.judge_c13], "opts": {"env_max": 4, "multi_ce": 0.5, "lifecycle": 0.2}},
+    "C20": {"profile": "blocks", "rule": "after every action of generated programs the partition into storage blocks is compared before/after: bystander blocks identical (members, order, level, bytes), no bystander merged in, single-subsystem actions do not enlarge a block, multi-operand actions join their operands, merged blocks are dissolved, measured subsystems leave their block; case = one call; cell = (call, entry point, storage, #blocks before, #addressed, raised?); trivial iff fewer than two blocks exist (no bystander)",  "oracles": [O.judge_c20], "opts": {"multi_ce": 0.25, "lifecycle": 0.25}},
 }
